@@ -5,7 +5,7 @@
    model does not depend on the trigger (before the window, forced at its end, outside the stage window)
    the comparison is sharp. *)
 From Coq Require Import ZArith List Bool Floats Uint63.
-From Hermes Require Import Num RotationModel.
+From Hermes Require Import Num RotationModel SchedModel.
 Import ListNotations.
 Open Scope Z_scope.
 
@@ -168,6 +168,15 @@ Definition skip_check (r : (float * float * float) * (float * float * float) * (
   let '((a, d, f), (nsas, nlas, ndir), (a', d', f')) := r in
   let '(ma, md, mf) := skip_payload a d f nsas nlas ndir in
   if float_same ma a' && float_same md d' && float_same mf f' then 0%nat else 1%nat.
+
+(* tillage date of a Nitro call in sub-step 1: z, SAAT[AKF], ERNTE[AKF], EINTE[NTIL+1] before, AUTOHAR; observed EINTE of that slot
+   after the call, cursor advanced? *)
+Definition till_check (r : (int * int * int * int * bool) * (int * bool)) : nat :=
+  let '((z, saat, ernte, einte, autohar), (einte', fired)) := r in
+  match till_adapt (zi z) (zi saat) (zi ernte) (zi einte) autohar with
+  | Some e => if (e =? zi einte') && Bool.eqb fired (zi z =? e + 1) then 0%nat else 1%nat
+  | None => 2%nat
+  end.
 
 Fixpoint mismatches {A} (chk : A -> nat) (i : nat) (l : list A) : list (nat * nat) :=
   match l with
